@@ -43,7 +43,8 @@ def search(ctx):
     """Failing-input search: the thorough generators, then two more seeds of the quick ones."""
     found = []
     for seed, tier in ((ctx.seed, "thorough"), (ctx.seed + 101, "quick"), (ctx.seed + 202, "quick")):
-        st = ctx.correspond("h_codec", "Codec", tag="search-%s-%s" % (tier, seed), tier=tier, seed=seed, nontrivial=NONTRIVIAL)
+        st = ctx.correspond("h_codec", "Codec", tag="search-%s-%s" % (tier, seed), tier=tier, seed=seed, nontrivial=NONTRIVIAL,
+                            env={"GOGC": "800"})
         found += [m for m in st.get("messages", []) if m.startswith("ORACLE-FAIL")]
         if found:
             break
@@ -58,7 +59,7 @@ def run(ctx):
     if not ok:
         pr["translator_ok"] = False
         pr["messages"].append("schemafacts: " + msg)
-    st = ctx.correspond("h_codec", "Codec", nontrivial=NONTRIVIAL)
+    st = ctx.correspond("h_codec", "Codec", nontrivial=NONTRIVIAL, env={"GOGC": "800"})
     hist = st.get("hist", {})
     return ctx.finish(
         rule="h_codec: one line = one observation of the real code. pay/ts/vrf: bytes of MarshalForSigning / "
@@ -80,11 +81,15 @@ def run(ctx):
         ],
         assumptions=[
             "CIDs inside encoded values are at most 511 bytes (cbor-gen ReadCid limit; validated go-f3 values carry <= 38)",
-            "panic-freedom and allocation bounds of the Go decoders and of zstd are runtime behaviour: validated by the "
-            "malformed stream (recover + MemStats) only, not proved",
+            "panic-freedom and the measured allocation of the Go decoders and of zstd are runtime behaviour: validated by the "
+            "malformed stream (recover + MemStats TotalAlloc deltas against Schema.allocBound) only; the proved bound is about "
+            "the model's make-requests (allocReq)",
         ],
         search=search,
-        partial=["decoder_panic_and_allocation_freedom (runtime; validated by fuzzing only)"],
+        partial=["go_runtime_panic_freedom_and_measured_allocation (the Go decoders / zstd on arbitrary bytes: validated by the "
+                 "malformed stream only; the model-level counterparts decode_alloc_bounded, decode_accepts_only_within_limits, "
+                 "decode_rejects_overlimit are proved and the model's allocReq is checked to be a lower bound of the measured "
+                 "allocation on every dec line)"],
         extra_cov={"codec_types": len([k for k in hist if k.startswith("rt_") and k != "rt_reject_overlimit"]),
                    "schema_extraction_ok": ok},
     )
